@@ -23,7 +23,36 @@ NARROW = {
 }
 
 
-def setup (ctx, threaded, funcs, pending, opcode=False, rotate=False, max_points=6000):
+class FakeOS (object):
+  """Stands in for the `os` module inside pox.lib.util so that the REAL pinger code (PipePinger over os.pipe /
+  os.write / os.read) runs on modelled pipes: write makes the read end readable, read blocks on an empty pipe."""
+  name = "posix"
+  def __init__ (self, S):
+    self.S = S; self.pipes = {}; self.next = 1000
+  def pipe (self):
+    r, w = self.next, self.next + 1; self.next += 2
+    buf = [0]
+    self.pipes[r] = buf; self.pipes[w] = buf
+    return (r, w)
+  def write (self, fd, data):
+    self.S.point("os.write"); self.pipes[fd][0] += len(data); return len(data)
+  def read (self, fd, n):
+    S = self.S
+    S.point("os.read")
+    buf = self.pipes[fd]
+    if buf[0] == 0:
+      S.block(lambda: buf[0] > 0, what="read of an empty pipe")
+    k = min(n, buf[0]); buf[0] -= k
+    return b" " * k
+  def close (self, fd): pass
+  def readable (self, fd):
+    b = self.pipes.get(fd); return bool(b and b[0] > 0)
+  def __getattr__ (self, n):
+    import os as _os
+    return getattr(_os, n)
+
+
+def setup (ctx, threaded, funcs, pending, opcode=False, rotate=False, max_points=6000, real_pinger=False):
   from mc.env import boot
   boot()
   from mc import thr
@@ -33,8 +62,22 @@ def setup (ctx, threaded, funcs, pending, opcode=False, rotate=False, max_points
   S.rotate = rotate
   T = thr.CThreadingModule(S)
   R.threading = T; R.Thread = T.Thread; R.Queue = lambda: thr.CQueue(S)
-  R.select = thr.CSelect(S); R.time = thr.CTime(S); R.CYCLE_MAXIMUM = 1e9
-  U.makePinger = lambda: thr.CPinger(S)
+  R.time = thr.CTime(S); R.CYCLE_MAXIMUM = 1e9
+  import os as _realos
+  if real_pinger:
+    # the library's own pinger (pox.lib.util.make_pinger -> PipePinger) on modelled pipes
+    fos = FakeOS(S)
+    U.os = fos
+    U.makePinger = U.make_pinger
+    class PipeSelect (thr.CSelect):
+      def _ready (self_, r, w, x):
+        ro = [o for o in r if (getattr(o, "readable", None) or (lambda: fos.readable(o.fileno() if hasattr(o, "fileno") else o)))()]
+        return ro, [], []
+    R.select = PipeSelect(S)
+  else:
+    U.os = _realos
+    R.select = thr.CSelect(S)
+    U.makePinger = lambda: thr.CPinger(S)
   R.Scheduler.runThreaded = R.Scheduler._orig_runThreaded
   sch = R.Scheduler(isDefaultScheduler=True, startInThread=True, threaded_selecthub=threaded)
   R.defaultScheduler = sch
@@ -53,7 +96,7 @@ def s_calllater (ctx, p):
   ran = []
   nthreads, ncalls = p.get("threads", 2), p.get("calls", 2)
   total = nthreads * ncalls
-  S, R, sch = setup(ctx, p["threaded"], p["funcs"], lambda: len(set(ran_tags(ran))) < total, p.get("opcode"), p.get("rotate"))
+  S, R, sch = setup(ctx, p["threaded"], p["funcs"], lambda: len(set(ran_tags(ran))) < total, p.get("opcode"), p.get("rotate"), real_pinger=p.get("real_pinger", False))
   def f (tag): ran.append((tag, S.cur.obj is sch._thread))
   def foreign (i):
     def body ():
@@ -78,9 +121,14 @@ def ran_tags (ran): return [t for t, _ in ran]
 def s_wake (ctx, p):
   st = dict(last_wake=-1, last_step=-2, steps=0, maxq=0, clock=0)
   def tick (): st["clock"] += 1; return st["clock"]
-  S, R, sch = setup(ctx, p["threaded"], p["funcs"], lambda: st["last_wake"] > st["last_step"], p.get("opcode"), p.get("rotate"))
+  S, R, sch = setup(ctx, p["threaded"], p["funcs"], lambda: st["last_wake"] > st["last_step"], p.get("opcode"), p.get("rotate"), real_pinger=p.get("real_pinger", False))
   class T (R.BaseTask):
     def run (self):
+      for _ in range(p.get("reyield", 0)):
+        # re-queue itself with `yield 0`: the task then sits in the ready list without having gone through
+        # fast_schedule()
+        st["last_step"] = tick(); st["steps"] += 1
+        yield 0
       while True:
         st["last_step"] = tick(); st["steps"] += 1
         yield False
@@ -108,7 +156,7 @@ def s_wake (ctx, p):
 # ---- S3: synchronized() ----------------------------------------------------------------
 def s_sync (ctx, p):
   st = dict(inside=0, bad=None, fdone=False, steps=0)
-  S, R, sch = setup(ctx, p["threaded"], p["funcs"], lambda: not st["fdone"], p.get("opcode"), p.get("rotate"))
+  S, R, sch = setup(ctx, p["threaded"], p["funcs"], lambda: not st["fdone"], p.get("opcode"), p.get("rotate"), real_pinger=p.get("real_pinger", False))
   class Worker (R.BaseTask):
     def run (self):
       for i in range(3):
@@ -138,7 +186,7 @@ def s_sync (ctx, p):
 # ---- S4: idle / wake-up handshake ----------------------------------------------------
 def s_idle (ctx, p):
   st = dict(ran=0, want=0)
-  S, R, sch = setup(ctx, p["threaded"], p["funcs"], lambda: st["ran"] < st["want"], p.get("opcode"), p.get("rotate"))
+  S, R, sch = setup(ctx, p["threaded"], p["funcs"], lambda: st["ran"] < st["want"], p.get("opcode"), p.get("rotate"), real_pinger=p.get("real_pinger", False))
   class One (R.BaseTask):
     def run (self):
       st["ran"] += 1
@@ -171,11 +219,17 @@ def configs (quick):
         cs.append(dict(base, bound=2, rotate=True))
       if name == "idle":
         cs.append(dict(base, bound=2, via="schedule"))
+      if name == "wake":
+        cs.append(dict(base, bound=2, reyield=3))
+      if name == "calllater":
+        # the library's real pipe pinger instead of the counting model; 3 calls per thread
+        cs.append(dict(base, bound=2 if threaded else 1, real_pinger=True, calls=3))
       # every line of recoco.py as a scheduling point, one deviation
       cs.append(dict(base, funcs=None, bound=1))
       if not quick:
         cs.append(dict(base, bound=3))
-        cs.append(dict(base, bound=2, opcode=True))
+        # (bytecode-granularity tracing is not used: CPython 3.12.1 is not deterministic - and can crash - under
+        #  per-instruction tracing across threads; see DESIGN.md 9.2)
         cs.append(dict(base, funcs=None, bound=2))
   if not quick:
     cs.append(dict(scen="calllater", threaded=True, funcs=NARROW["calllater"], bound=2, threads=3, calls=1))
@@ -193,7 +247,8 @@ def cfg_name (c):
   return "%s/%s/%s%s%s%s" % (c["scen"], "threaded-hub" if c["threaded"] else "inline-hub",
                              "all-lines" if c["funcs"] is None else "handoff-funcs",
                              "/opcode" if c.get("opcode") else "", "/rotate" if c.get("rotate") else "",
-                             "/via-schedule" if c.get("via") else "")
+                             ("/via-schedule" if c.get("via") else "") + ("/reyield" if c.get("reyield") else "")
+                             + ("/real-pinger" if c.get("real_pinger") else ""))
 
 
 def _worker (item):
@@ -270,7 +325,7 @@ def run (cfg):
   rep.rule = ("controlled-thread exploration of the real recoco scheduler: scenarios callLater (2 foreign threads x 2 calls), "
               "wake (task woken by 2 foreign threads + a sibling task), synchronized (foreign thread, nested, 2 rounds, 2 worker tasks), "
               "idle/wake-up handshake (new tasks via fast start and via schedule), each with threaded and inline select hub; "
-              "scheduling points = line events in the hand-off functions (deviation bound 2; thorough 3 and bytecode granularity) or in all "
+              "scheduling points = line events in the hand-off functions (deviation bound 2; thorough 3) or in all "
               "of recoco.py (bound 1; thorough 2) plus every Lock/Event/Queue/select/pinger operation; every schedule within the bound "
               "is executed; cooperative Lock: every program of 2-3 tasks x acquire/release scripts on 1-2 locks with every waiter-pop choice. "
               "distinct = (scenario, hub, verdict, observation)")
